@@ -12,6 +12,9 @@ type FlowCase struct {
 	Cfg RefCfg  `json:"cfg"`
 	RS  RuleSet `json:"ruleset"`
 	Req Req     `json:"request"`
+	// After: the WAF has served (and closed) another transaction before: "same" request, or the request with every
+	// condition switched on ("all"), which leaves whatever skip / allow state the rule set can produce
+	After string `json:"after,omitempty"`
 }
 
 var c08Markers = []string{"M1", "M2", "M3"}
@@ -125,6 +128,7 @@ func genC08(t *rapid.T) *FlowCase {
 		}
 		c.Req.Query = append(c.Req.Query, KV{fmt.Sprintf("c%d", k), v})
 	}
+	c.After = rapid.SampledFrom([]string{"", "", "same", "all", "all"}).Draw(t, "after")
 	return c
 }
 
@@ -138,6 +142,23 @@ func checkFlow(prop string) func(c *FlowCase) Result {
 			return res
 		}
 		defer closeWAF(w)
+		if c.After != "" {
+			pred := c.Req
+			if c.After == "all" {
+				pred.Query = nil
+				for _, kv := range c.Req.Query {
+					if len(kv.K) == 2 && kv.K[0] == 'c' {
+						kv.V = "1"
+					}
+					pred.Query = append(pred.Query, kv)
+				}
+			}
+			if _, f := runCanonical(w, &pred); f != nil {
+				res.Fail = f
+				return res
+			}
+			res.Labels = append(res.Labels, "after-another-transaction")
+		}
 		got, f := runCanonical(w, &c.Req)
 		if f != nil {
 			res.Fail = f
